@@ -22,6 +22,21 @@ tsan_leg() {
 # -Zmiri-deterministic-floats: Miri otherwise perturbs tanh/exp/ln results by random ulps on purpose, so two runs of
 # the same float decoder (C handle vs fresh Rust decoder) may legitimately differ - not a property violation
 MIRI_BASE="-Zmiri-disable-isolation -Zmiri-deterministic-floats"
+
+# "unchecked" leg for every property: the quick workload once more against the library built the way an
+# optimised user build is (no overflow checks, no debug assertions); release and debug can flip verdicts
+unchecked_leg() {
+    if build_fast; then
+        run_leg unchecked 900 "$TARGET/harness/fast/lv" "$ID" --tier quick --seed "$SEED" --leg unchecked
+    else
+        echo "unchecked build failed (see $TARGET/build-fast.log)" >"$LEGS/$ID.unchecked.log"
+        echo 125 >"$LEGS/$ID.unchecked.log.status"
+        LEGARGS="${LEGARGS:+$LEGARGS,}unchecked=$LEGS/$ID.unchecked.log"
+    fi
+}
+case "$ID" in
+C[0-9][0-9]) unchecked_leg ;;
+esac
 case "$ID" in
 C02 | C08 | C09 | C11 | C17)
     # pure code on ndarray / Vec paths: cheap completeness leg, thorough tier only
